@@ -66,7 +66,24 @@ def gen_C03(rng, tier):
     n = 2500 if tier == 'quick' else 30000
     return G.histories(rng, n, ['D', 'U'], kinds, maxops=30 if tier == 'quick' else 40, reject_p=0.0)
 
+def gen_C07(rng, tier):
+    n = 500 if tier == 'quick' else 6000
+    kw = dict(reject_p=0.3, reject_force_p=0.5, query_p=0.12, maxops=25)
+    kinds = ['none', 'int', 'str'] if tier == 'quick' else G.LABEL_KINDS_ALL
+    out = G.histories(rng, 2 * n, ['D', 'U'], kinds, **kw)
+    out += [G.multi_history(rng, rng.choice(['DM', 'UM']), **kw) for _ in range(n)]
+    out += [G.weighted_history(rng, rng.choice(['DW', 'UW']), **kw) for _ in range(n)]
+    return out
+def _has_reject(c, I):
+    return _steps_with_edges(c, I) and any(l.split()[1] in ('-101', '-102') or l.rstrip().endswith('-101') for l in I if l.startswith('I '))
+
 PROPS = {
+ 'C07': dict(harness=['classes', 'multi'], gen=gen_C07, coq_term=coq_term_any, histogram=G.op_histogram, coq_imports=MW_IMPORTS,
+             nontrivial=_has_reject, model_name='the six class models (Throw outcomes, checked accessors)',
+             rule='seeded histories on all six graph classes interleaving valid calls with rejected ones: every mutator with an out-of-range vertex (size, size+1, UINT_MAX) in '
+                  'either argument position, with and without force, resize to fewer vertices, setEdgeLabel on missing edges, and Q v = every observer taking a vertex asked about '
+                  'an out-of-range v; harness under ASan+UBSan; after every call the exception kind and ALL observers are compared with the Coq model and the spec (state unchanged); '
+                  'non-trivial = reaches >=1 edge and contains a rejected call'),
  'C03': dict(harness='classes', gen=gen_C03, coq_term=G.coq_term_history, histogram=G.op_histogram, coq_imports='Base DirectedModel DirectedSpec UndirectedModel UndirectedSpec Instances',
              segments=[0, 4, 5], nontrivial=lambda c, I: _steps_with_edges(c, I) and any(k in c for k in (' R ', ' V ', ' SL', ' CL')), model_name='DirectedModel/UndirectedModel label store',
              rule='seeded random histories on labelled directed and undirected graphs (int, std::string, struct labels; thorough adds long, double, char): creation, setEdgeLabel, '
